@@ -173,6 +173,7 @@ def parseOp (ws : List String) : Option Act :=
   | ["nackobs", _] => some .note
   | ["blocked", _] => some .note      -- closerace: the Batch call did not return within its bound: NOT an acknowledgement
   | ["closehung"] => some (.bad "bad:close-did-not-return")
+  | ["closehung", _] => some (.bad "bad:close-did-not-return")
   | ["lockcheck", "locked"] => some (.bad "bad:lock-not-released-after-close-error")
   | ["rmsnap", e, ok] => do pure (.ev (.cleanupRemoveSnap (← e.toNat?) (← b? ok)) fun _ => none)
   | ["rmseg", sid, ok, _] => do pure (.ev (.cleanupRemoveSeg (← sid.toNat?) (← b? ok)) fun _ => none)
@@ -263,6 +264,19 @@ def stepLine (d : DState) (op impl : String) : DState × String :=
         | some b => (d, answer (showState d.s) b ["opened"])
         | none => (d, answer (showState d.s) "ok" ["opened", if d.s.commits.isEmpty then "open-empty" else "open-existing",
                       if l.torn.isEmpty then "open-clean" else "open-over-torn-snapshot"])
+  | "closeret" :: who :: lk :: hs :: _ =>
+      -- a Close call returned; the harness probed the pid file lock and counted handles at that instant
+      let hp := ((hs.drop 8).toString.splitOn "/")
+      let balanced := match hp with | [a, b] => a == b | _ => false
+      let spec : Option String :=
+        if lk != "free" then some s!"bad:close-returned-before-close-finished caller={who} lock-still-held"
+        else if !balanced then some s!"bad:close-returned-before-close-finished caller={who} handles-open {hs}"
+        else none
+      if !d.sync then (d, answer impl (spec.getD "na") ["desync"]) else
+      (match closeReturned d.s with
+       | none => ({ d with sync := false }, answer "REJECT:close-returned-while-writer-open"
+                    (spec.getD s!"bad:close-returned-before-close-finished caller={who}") [])
+       | some _ => (d, answer (showState d.s) (spec.getD "ok") ["closeret"]))
   | ["openfail"] =>
       if !d.sync then (d, answer impl "na" ["desync"]) else
       (match step d.s .openWriter with
